@@ -203,9 +203,13 @@ CHECKS.update({
         'monotonicity incl. out-of-range levels); the middle value is np.median; identical members give three equal bounds; counter-examples for the '
         'truncated level (D12) and the re-read resolved maxlag (D11). Tie: Monte-Carlo members re-created independently, '
         'their percentiles taken by the model and compared with propagate; reproducibility, zero-noise identity, source '
-        'snapshot before/after. C19_source pins the percentile levels and the three result columns of propagate.',
+        'snapshot before/after. C19_source pins the percentile levels and the three result columns of propagate. Several '
+        'targets per call: the order in which a member appends its targets is translated from the source '
+        '(Gen.propagateTargets); C19_targets_order / _documented: the returned matrices depend only on the set of '
+        'requested targets and come in the documented order; calls with 2-3 targets in any order are compared '
+        'position by position with single-target calls of the same seed.',
    note='Known finding D11. NumPy Generator stream is external.',
-   technique='Lean 4 proof (quantile monotonicity) + correspondence', design='6 C19'),
+   technique='Lean 4 proof (quantile monotonicity, target order) + translator (target order, key statements) + correspondence', design='6 C19'),
 })
 NOT_YET = {}
 ALL = ['C%02d' % i for i in range(1, 21)]
